@@ -146,6 +146,14 @@ func HasUpper(s string) bool {
 	return false
 }
 
+// SymbolOf returns the 5-bit value of a charset character in either case, or -1.
+func SymbolOf(c byte) int {
+	if c >= 'A' && c <= 'Z' {
+		c += 32
+	}
+	return int(charRev[c])
+}
+
 // Chars maps 5-bit symbols to charset characters (values are masked to 5 bits).
 func Chars(syms []byte) string {
 	b := make([]byte, len(syms))
